@@ -9,6 +9,20 @@ def run(config, profile, bin, args=(), **kw):
     return d
 
 
+def miri(config, bin, nproc, mshards, seed, args=(), stride=None, tagp="miri"):
+    """nproc single-threaded Miri processes, each executing the work of shard i of `mshards` of a `small` workload"""
+    stride = stride or max(1, mshards // nproc)
+    out = []
+    for j in range(nproc):
+        i = (j * stride + seed) % mshards
+        out.append(run(config, "miri", bin, list(args) + ["small", f"mshard={i}", f"mshards={mshards}"], tag=f"{tagp}{j}", threads=1, timeout=2400))
+    return out
+
+
+def sanitized(config, profile, bin, args=(), tag="", **kw):
+    return run(config, profile, bin, list(args), tag=(profile + tag), **kw)
+
+
 def c01(tier, seed):
     cfgs = ["d", "c", "rf", "crf"] if tier == "quick" else ["d", "c", "p", "r", "f", "rf", "crf", "nd", "nc", "ncrf"]
     runs = [run(c, "rel", "c01") for c in cfgs]
@@ -27,6 +41,12 @@ def c03(tier, seed):
     cfgs = ["d", "c", "p", "r", "crf"] if tier == "quick" else ["d", "c", "p", "r", "f", "rf", "cr", "crf", "nd"]
     runs = [run(c, "rel", "c03") for c in cfgs]
     runs += [run(c, "dbg", "c03", ["percount=60", "u32stride=4001"], tag="dbg") for c in (["r", "crf"] if tier == "quick" else cfgs)]
+    # the integer writers index unchecked from a separately computed digit count: Miri sees an index that is wrong but
+    # still inside the caller's allocation
+    runs += miri("d", "c03", 4, 12, seed)
+    runs += miri("r", "c03", 4 if tier == "quick" else 16, 420, seed, stride=53)
+    if tier == "thorough":
+        runs += miri("c", "c03", 4, 12, seed) + [sanitized("r", "asan", "c03", ["percount=60", "u32stride=40001"])]
     return runs
 
 
@@ -34,6 +54,10 @@ def c04(tier, seed):
     cfgs = ["d", "c", "r", "rf"] if tier == "quick" else ["d", "c", "p", "r", "f", "rf", "cr", "crf", "nd"]
     runs = [run(c, "rel", "c04") for c in cfgs]
     runs += [run(c, "dbg", "c04", tag="dbg") for c in (["d", "rf"] if tier == "quick" else cfgs)]
+    runs += miri("d", "c04", 4, 12, seed)
+    runs += miri("r", "c04", 4 if tier == "quick" else 16, 420, seed, stride=53)
+    if tier == "thorough":
+        runs += [sanitized("rf", "asan", "c04", ["small"])]
     return runs
 
 
@@ -83,10 +107,27 @@ def px_runs(tier, prop, with_invalid=False, with_c10=True):
     if with_c10:
         runs.append(run("d", "dbg", "c10", a, tag=prop + "dbg"))
         runs.append(run("rf", "rel", "c10", a, tag=prop))
+    if prop == "C10":
+        # Miri: the skip iterators, SWAR reads and unchecked slicing of the parsers on exact-size heap inputs
+        n = 4 if tier == "quick" else 12
+        runs += miri("rf", "px_p0", n, 64, SEED_BOX[0], a, tagp="mirisep")
+        runs += miri("rf", "px_s0", n, 64, SEED_BOX[0], a, tagp="mirisyn")
+        runs += miri("rf", "px_b0", n, 64, SEED_BOX[0], a, tagp="miripre")
+        runs += miri("d", "c10", 4, 16, SEED_BOX[0], a, tagp="miridef")
+        if tier == "thorough":
+            runs += miri("crf", "px_p0", 8, 64, SEED_BOX[0], a, tagp="miricompact")
+            runs.append(sanitized("rf", "asan", "px_p0", a + ["nfmt=32"]))
+            runs.append(sanitized("rf", "asan", "px_s0", a + ["nfmt=32"]))
+            runs.append(sanitized("d", "asan", "c10", a))
+            runs += [run("rf", "vg", "px_p0", a + ["small", f"mshard={i}", "mshards=64"], tag=f"vg{i}", threads=1, timeout=3600) for i in (3, 21, 40, 58)]
     return runs
 
 
+SEED_BOX = [0]
+
+
 def c10(tier, seed):
+    SEED_BOX[0] = seed
     return px_runs(tier, "C10")
 
 
@@ -130,7 +171,7 @@ WX_RULE = ("formats = compile-time sample seeded by VERIF_SEED: STANDARD, each o
            "interesting shorter length (0, 1, len-1, len, len+1, bound/2, bound-1, random) on both sides. The default API (all 14 types) is driven the same way with every buffer length 0..FORMATTED_SIZE_DECIMAL.")
 
 
-def wx_runs(tier, prop):
+def wx_runs(tier, prop, seed=0):
     a = ["prop=" + prop]
     runs = []
     bins = ["wx_w0", "wx_w1", "wx_b0"]
@@ -148,6 +189,23 @@ def wx_runs(tier, prop):
     for c in ["d", "c"] + (["p", "r", "nd", "nc", "cr"] if tier == "thorough" else []):
         runs.append(run(c, "rel", "wx_std", a + ["defaultapi"], tag=prop))
     runs.append(run("d", "dbg", "wx_std", a + ["defaultapi", "nfmt=1"], tag=prop + "dbg"))
+    if prop in ("C08", "C09", "C17"):
+        # integers: every type x every radix of the configuration at the documented bound and at every shorter length
+        for c in ["r", "c"] + (["d", "p", "crf", "nr"] if tier == "thorough" else []):
+            runs.append(run(c, "rel", "c09", a, tag=prop))
+        runs.append(run("r", "dbg", "c09", a, tag=prop + "dbg"))
+    if prop in ("C09", "C17"):
+        # exact-size heap buffers under Miri: every writer path incl. lexical::to_string's unchecked UTF-8 conversion
+        n = 6 if tier == "quick" else 16
+        runs += miri("d", "wx_std", n, 16, seed, a + ["defaultapi", "nfmt=1"])
+        runs += miri("rf", "wx_w0", n, 32, seed, a, tagp="mirifmt")
+        runs += miri("r", "c09", 4 if tier == "quick" else 16, 420, seed, a, stride=53, tagp="miriint")
+        if tier == "thorough":
+            runs += miri("crf", "wx_w0", 8, 32, seed, a, tagp="miricompact")
+            runs.append(sanitized("rf", "asan", "wx_w0", a + ["nfmt=16"]))
+            runs.append(sanitized("crf", "asan", "wx_w1", a + ["nfmt=8"]))
+            runs.append(sanitized("d", "asan", "wx_std", a + ["defaultapi"]))
+            runs += [run("rf", "vg", "wx_w0", a + ["small", f"mshard={i}", "mshards=32"], tag=f"vg{i}", threads=1, timeout=3600) for i in (1, 9, 17, 25)]
     return runs
 
 
@@ -156,7 +214,7 @@ def c08(tier, seed):
 
 
 def c09(tier, seed):
-    return wx_runs(tier, "C09")
+    return wx_runs(tier, "C09", seed)
 
 
 def c14(tier, seed):
@@ -164,7 +222,7 @@ def c14(tier, seed):
 
 
 def c17(tier, seed):
-    return wx_runs(tier, "C17")
+    return wx_runs(tier, "C17", seed)
 
 
 def c16(tier, seed):
